@@ -38,6 +38,11 @@ def features(**over):
 
 # ----------------------------------------------------------------- refinements
 
+import string as _string
+
+DEFAULT_ALPHABET = _string.ascii_letters + _string.digits
+
+
 def gen_refinement(H: Chooser, base: str, feat, finite=False):
     """A refinement for base type `base` with boundary-rich parameters."""
     if base == "int":
@@ -64,7 +69,8 @@ def gen_refinement(H: Chooser, base: str, feat, finite=False):
             return ["VarRange", [H.pick(["x", "y", "z", "", "ab"]) for _ in range(n)]]
         if k == "StringSizeBetween":
             lo = H.pick([0, 0, 1, 2])
-            return ["StringSizeBetween", lo, lo + H.pick([0, 1, 3]), H.pick(["a", "ab", "xyz0"])]
+            # (the last alphabet is the library's default -- letters and digits --, rendered by leaving the argument out)
+            return ["StringSizeBetween", lo, lo + H.pick([0, 1, 3]), H.pick(["a", "ab", "xyz0", DEFAULT_ALPHABET])]
         rows = 1 + H.draw(3)
         alpha = H.pick([["a"], ["a", "c"], ["a", "c", "g", "t"]])
         matrix = []
@@ -367,6 +373,8 @@ def render_refinement(r, deps: list) -> str:
     if k == "LSBWLO":
         return f"ListSizeBetweenWithoutListOperations({r[1]}, {r[2]})"
     if k == "StringSizeBetween":
+        if r[3] == DEFAULT_ALPHABET:
+            return f"StringSizeBetween({r[1]}, {r[2]})"
         return f"StringSizeBetween({r[1]}, {r[2]}, {r[3]!r})"
     if k == "WeightedString":
         return f"WeightedStringHandler(_np.array({r[1]!r}), {r[2]!r})"
